@@ -454,7 +454,7 @@ func runCheck(args []string) int {
 				"solver_sat":                    total.Sat,
 				"solver_unknown":                total.Unknown,
 				"solver_s":                      float64(total.SolverNs) / 1e9,
-				"solver":                        "z3 -in (" + z3Version() + ")",
+				"solver":                        prog.SolverName() + " -in (" + z3Version(prog.SolverName()) + ")",
 				"ssa_instructions_interpreted":  total.Steps,
 				"inconclusive":                  len(inconclusive),
 				"known_findings_witnessed":      sortedKeysB(known),
@@ -493,9 +493,9 @@ func sortedKeysB(m map[string]bool) []string {
 
 var z3v string
 
-func z3Version() string {
+func z3Version(bin string) string {
 	if z3v == "" {
-		out, _ := exec.Command("z3", "--version").Output()
+		out, _ := exec.Command(bin, "--version").Output()
 		z3v = strings.TrimSpace(string(out))
 	}
 	return z3v
